@@ -28,7 +28,7 @@ PROPS = {
         level_text="Proved for every reachable model state and script: the block (pre-block) is handed over only while M commits (pre-commits) of the current view are held, with all transactions, at most once per height; the block handed over is the node's header, whose timestamp, nonce and transaction list (in order) are those of the PrepareRequest of the current view held in the slot of the view's primary (height - view mod N), and whose index and previous hash are the context's values read from the application at the height's initialisation; under anti-MEV the same holds of the pre-block handed to ProcessPreBlock and the node's pre-header (Node/P02.v, invariant Inv2). Refuted with a model-level witness that is the real library's own history: that each counted signature verifies against that block (D1, D1p, D2, D2n).",
         level_note="partial: counting, at-most-once and block-is-the-proposal clauses proved on the whole model; signature validity of stored early commits is a known finding (refutation theorem with the library's own history as witness)"),
     "C03": dict(family="node", level="proof", title="Non-equivocation and commit lock",
-        level_text="Proved over whole histories of the node model (Node/SignL.v, SignLReset.v, SignLRec.v, SignLApi.v): in every history of one initialisation epoch (a reachable state, Start or Reset, then any other API calls with any callback answers) in which the application reports one validator index in its key-pair callbacks, never tells the node to watch only, and the validator list has at most 2^16 entries: (1) the node asks for at most one block signature; (2) once it has signed, its own Commit slot holds exactly the commit built then, the node is in the view of that commit and its header is the signed block; (3) the commit lock: no further call of the epoch - payloads of every kind including recovery messages and a PrepareRequest arriving after the commit, timeouts, transactions, notifications - changes the view, asks for another signature or touches the own Commit slot; (4) every ChangeView the node broadcasts in the epoch precedes its signature request - after it has signed, no call makes it broadcast a ChangeView - and the table of view-change requests, its own request included, is never written again (SignLCV.v, Typed.v, SignLNoCV.v; the latter needs, and proves for every reachable state, that the PreCommit table holds PreCommits only and the Commit table Commits only, so that what the node re-broadcasts from its own slots is never a ChangeView); (5) from its signature request on, every Commit payload the node broadcasts - the first broadcast and every direct retransmission - is the commit built at that request (TypedCM.v, SignLCM.v); (6) the same lock after the PreCommit under anti-MEV (SignP.v, SignPReset.v, SignPRec.v, SignPApi.v, SignPNoCV.v - the construction with the roles of the two phases exchanged, ghost = the requests for pre-commit data): at most one PreCommit is built per epoch, the own PreCommit slot keeps it, from that request on no call changes the view or broadcasts a ChangeView, and every PreCommit it broadcasts is the one built then (TypedPM.v, SignPPM.v). The proof ties a ghost of the history (number of signature requests, the commit built at the first) to the state by the invariant Sg, uses the invariant Inv2 of P02.v for the PrepareRequest site, and shows initializeConsensus is entered only while nothing is signed. Also proved: for every reachable state a signature is requested only for the hash of the node's header, which is the proposal of its view, while the own Commit slot is empty, and (anti-MEV) pre-commit data only for the hash of the node's pre-header, the same proposal, while the own PreCommit slot is empty (P02.v); for every state with the own Commit/PreCommit slot filled a retransmitted Commit/PreCommit is the stored one and a timeout, a peer's ChangeView and a transaction broadcast no ChangeView (P03.v). Retransmission inside a recovery message (P09b.v, SignLRM.v): wherever it is called from, sendRecoveryMessage of a node whose own Commit slot is filled broadcasts a recovery message of the node's height and view that carries that Commit whole (every state); over all histories of an epoch, once the node has signed, every RecoveryRequest is answered with a recovery message of its height and of the signed commit's view that carries the commit built at the signature request - which is what the reference application's reconstruction needs to rebuild it identically (Properties/C19.v). Not proved: the analogous statements for proposals, responses and pre-commits (one per view / at all), the commits carried inside the recovery messages sent on other occasions (timeouts, peers' ChangeViews) and the pre-commits inside any, view monotonicity of outgoing messages, the other recovery contents: decided by monitors on every node's outgoing history on the real library.",
+        level_text="Proved over whole histories of the node model (Node/SignL.v, SignLReset.v, SignLRec.v, SignLApi.v): in every history of one initialisation epoch (a reachable state, Start or Reset, then any other API calls with any callback answers) in which the application reports one validator index in its key-pair callbacks, never tells the node to watch only, and the validator list has at most 2^16 entries: (1) the node asks for at most one block signature; (2) once it has signed, its own Commit slot holds exactly the commit built then, the node is in the view of that commit and its header is the signed block; (3) the commit lock: no further call of the epoch - payloads of every kind including recovery messages and a PrepareRequest arriving after the commit, timeouts, transactions, notifications - changes the view, asks for another signature or touches the own Commit slot; (4) every ChangeView the node broadcasts in the epoch precedes its signature request - after it has signed, no call makes it broadcast a ChangeView - and the table of view-change requests, its own request included, is never written again (SignLCV.v, Typed.v, SignLNoCV.v; the latter needs, and proves for every reachable state, that the PreCommit table holds PreCommits only and the Commit table Commits only, so that what the node re-broadcasts from its own slots is never a ChangeView); (5) from its signature request on, every Commit payload the node broadcasts - the first broadcast and every direct retransmission - is the commit built at that request (TypedCM.v, SignLCM.v); (6) the same lock after the PreCommit under anti-MEV (SignP.v, SignPReset.v, SignPRec.v, SignPApi.v, SignPNoCV.v - the construction with the roles of the two phases exchanged, ghost = the requests for pre-commit data): at most one PreCommit is built per epoch, the own PreCommit slot keeps it, from that request on no call changes the view or broadcasts a ChangeView, and every PreCommit it broadcasts is the one built then (TypedPM.v, SignPPM.v). The proof ties a ghost of the history (number of signature requests, the commit built at the first) to the state by the invariant Sg, uses the invariant Inv2 of P02.v for the PrepareRequest site, and shows initializeConsensus is entered only while nothing is signed. Also proved: for every reachable state a signature is requested only for the hash of the node's header, which is the proposal of its view, while the own Commit slot is empty, and (anti-MEV) pre-commit data only for the hash of the node's pre-header, the same proposal, while the own PreCommit slot is empty (P02.v); for every state with the own Commit/PreCommit slot filled a retransmitted Commit/PreCommit is the stored one and a timeout, a peer's ChangeView and a transaction broadcast no ChangeView (P03.v). Retransmission inside a recovery message (P09b.v, SignLRM.v): wherever it is called from, sendRecoveryMessage of a node whose own Commit slot is filled broadcasts a recovery message of the node's height and view that carries that Commit whole (every state); over all histories of an epoch, once the node has signed, every RecoveryRequest is answered with a recovery message of its height and of the signed commit's view that carries the commit built at the signature request - which is what the reference application's reconstruction needs to rebuild it identically (Properties/C19.v); and on sendRecoveryMessage itself, the one place where a recovery message is built whatever the occasion, from the state reached by any history of an epoch: after the signature the message carries the signed commit in its view, after the pre-commit was built (anti-MEV) the built pre-commit in its view (SignPRM.v). Not proved: the analogous statements for proposals, responses and pre-commits (one per view / at all), recovery messages built in the middle of a call that has already changed the state, view monotonicity of outgoing messages, the other recovery contents: decided by monitors on every node's outgoing history on the real library.",
         level_note="partial: one block signature per epoch, persistence of the signed commit, the commit lock (view never changes after the signature), 'no ChangeView is broadcast or recorded after the signature', 'every Commit broadcast from the signature on is the signed commit' the lock after the PreCommit (one PreCommit per epoch, kept, view never changes, no ChangeView broadcast) and 'the answer to a RecoveryRequest after the signature carries the signed commit, in its view' proved over all histories under a stable key-pair callback, no watch-only answer and N <= 2^16; the clauses about proposals/responses/pre-commits and outgoing-message monotonicity by exploration with monitors; model-code correspondence"),
     "C04": dict(family="node", level="proof", title="Quorum-gated progress",
         level_text="Proved for every reachable model state and script: a PrepareResponse is broadcast only with all transactions held and names the hash of the proposal in the primary's slot; Commit/PreCommit only with M current-view preparations including a request and all transactions. Proved over all started histories: in a view v > 0 the node holds M kept ChangeView requests for v or above. Not proved: 'the verification callback accepted the block' (exercised).",
